@@ -80,6 +80,39 @@ fn main() {
             }
             eprintln!("ran {count} random scenarios, {events} events, {bad} with mismatch/panic/watchdog");
         }
+        // mqv twins <kind: cancel|fragment> <seed> <count> <trace-out.ndjson>
+        "twins" => {
+            let kind = if args[2] == "cancel" { rnd::TwinKind::Cancel } else { rnd::TwinKind::Fragment };
+            let seed: u64 = args[3].parse().expect("seed");
+            let count: usize = args[4].parse().expect("count");
+            let mut out = std::io::BufWriter::new(std::fs::File::create(&args[5]).expect("create out"));
+            let cfg0: types::Cfg = serde_json::from_str(r#"{"rx":160,"tx":1152,"client_id":[116,119],"ka":0,"sei":300}"#).unwrap();
+            let mut bad = 0;
+            for i in 0..count {
+                let s = seed.wrapping_mul(7_000_003).wrapping_add(i as u64);
+                let program = rnd::twin_program(s, 10 + (i % 7), cfg0.rx);
+                let dropped = std::rc::Rc::new(std::cell::RefCell::new(Vec::new()));
+                let mut cfg = cfg0.clone();
+                cfg.name = format!("twin-{}-{seed}-{i}-variant", args[2]);
+                let dir = Box::new(rnd::TwinDirector::new(s, program.clone(), kind, cfg.rx, dropped.clone()));
+                let variant = runner::run_scenario(&cfg, dir);
+                // the base run: the same program minus the requests that were cancelled before
+                // they were enqueued, nothing pending, nothing partial, nothing cancelled
+                let skip: Vec<usize> = dropped.borrow().clone();
+                let base_program: Vec<types::Step> = program.iter().enumerate()
+                    .filter(|(k, _)| !skip.contains(k)).map(|(_, st)| st.clone()).collect();
+                cfg.name = format!("twin-{}-{seed}-{i}-base", args[2]);
+                let nobody = std::rc::Rc::new(std::cell::RefCell::new(Vec::new()));
+                let dir = Box::new(rnd::TwinDirector::new(s, base_program, rnd::TwinKind::Base, cfg.rx, nobody));
+                let base = runner::run_scenario(&cfg, dir);
+                for res in [&base, &variant] {
+                    if res.mismatch.is_some() || res.panicked.is_some() || res.watchdog { bad += 1; }
+                    for l in &res.lines { writeln!(out, "{l}").unwrap(); }
+                }
+                writeln!(out, "{}", serde_json::json!({"e":"twin","kind":args[2],"dropped":skip.len()})).unwrap();
+            }
+            eprintln!("ran {count} twin pairs ({}), {bad} runs with mismatch/panic/watchdog", args[2]);
+        }
         _ => {
             eprintln!("usage: mqv run <scenarios.ndjson> <trace.ndjson>");
             std::process::exit(2);
